@@ -1,19 +1,21 @@
 #!/bin/bash
 # usage: tools/mutcheck.sh <seeded-name> <Cxx> [<Cyy> ...]
-# Self-validation only: copies /repo to a scratch directory, applies /verif/seeded/<name>/patch.diff there
-# and runs the given checks against the copy (VERIF_REPO). /repo itself is never touched; the evidence
-# files and the generated facts are restored afterwards.
+# Self-validation only: copies /repo to a scratch directory, applies seeded/<name>/patch.diff there and runs
+# the given checks against the copy (VERIF_REPO). /repo itself is never touched; the evidence files and the
+# generated facts are restored afterwards.
+V=$(cd "$(dirname "$0")/.." && pwd)
 name=$1; shift
-S=/var/tmp/goat-verif-mut
+S=/var/tmp/goat-verif-mut-$$
 rm -rf $S && mkdir -p $S && cp -r /repo $S/repo && rm -rf $S/repo/.git/worktrees
-( cd $S/repo && git apply /verif/seeded/$name/patch.diff ) || { echo "patch does not apply"; rm -rf $S; exit 2; }
-cd /verif
-rm -rf .work/evidence-backup && cp -r evidence .work/evidence-backup
+( cd $S/repo && git apply $V/seeded/$name/patch.diff ) || { echo "$name: patch does not apply"; rm -rf $S; exit 2; }
+cd $V
+rm -rf .work/evidence-backup && mkdir -p .work && cp -r evidence .work/evidence-backup
 cp lean/Goat/Generated/Facts.lean .work/Facts.backup
-trap 'rm -rf /verif/evidence; mv /verif/.work/evidence-backup /verif/evidence; cp /verif/.work/Facts.backup /verif/lean/Goat/Generated/Facts.lean; rm -rf /var/tmp/goat-verif-mut /verif/harness/go.alt.mod /verif/harness/go.alt.sum' EXIT
+trap "rm -rf $V/evidence; mv $V/.work/evidence-backup $V/evidence; cp $V/.work/Facts.backup $V/lean/Goat/Generated/Facts.lean; rm -rf $S $V/harness/go.alt.mod $V/harness/go.alt.sum" EXIT
 for p in "$@"; do
   out=$(VERIF_REPO=$S/repo ./check $p 2>&1)
   n=$(echo "$out" | grep -c '^VIOLATION')
-  first=$(echo "$out" | grep '^VIOLATION' | head -2 | tr '\n' ' ')
-  echo "$name $p: violations=$n  $first"
+  c=$(echo "$out" | grep '^VIOLATION' | grep -vc 'no-failing-input-found')
+  first=$(echo "$out" | grep '^VIOLATION' | head -1)
+  echo "$name $p: violations=$n concrete=$c  $first"
 done
